@@ -215,6 +215,7 @@ impl Property for C10 {
                         ),
                     }
                 }
+                RecvRes::Retained => {}
                 RecvRes::Closed => {
                     if delivered != stream.len() {
                         crate::vfail!("closed-early", "{}: Closed reported after {} of {} stream bytes {}", name, delivered, stream.len(), what);
